@@ -138,9 +138,36 @@ def run(sel=None, tier="quick", checks=None):
                         ("inconclusive" if rc == 2 else "missed"),
                         time.time() - t0, lab), flush=True)
                     results.append((key, chk, rc))
+                    _record(key, chk, tier, rc, detected, lab)
             finally:
                 sh(["git", "checkout", "--", "."], cwd="/repo")
     return results
+
+
+RESULTS = os.path.join(SEEDED, "RESULTS.json")
+
+
+def _record(key, chk, tier, rc, detected, labels):
+    """remember the latest outcome per (seed, check, tier)"""
+    try:
+        with open(RESULTS) as f:
+            db = json.load(f)
+    except Exception:
+        db = {}
+    obl = []
+    for ln in labels:
+        # "obligation=C01.1 label='...' shape=..."
+        parts = ln.split()
+        o = parts[0].split("=", 1)[1] if parts else "?"
+        lab = ln.split("label=", 1)[1].split(" shape=")[0] if "label=" in ln \
+            else ""
+        obl.append("%s %s" % (o, lab.strip("'\"")))
+    db["%s|%s|%s" % (key, chk, tier)] = dict(
+        seed=key, check=chk, tier=tier, exit=rc, detected=bool(detected),
+        by=obl, repo_head=sh(["git", "-C", "/repo", "rev-parse", "--short",
+                              "HEAD"])[1].strip())
+    with open(RESULTS, "w") as f:
+        json.dump(db, f, indent=1, sort_keys=True)
 
 
 if __name__ == "__main__":
